@@ -645,6 +645,37 @@ def run(ctx):
                   "'nothing killed' and goes on to signal the next-best cgroup in the same invocation" % t[:70])
     ctx.counters["returns_after_kill_sink"] = n_after
     ctx.floor("returns_after_kill_sink", 1, "returns of tryToKillCgroup reachable after a kill sink")
+    # ... and one level down: the walk over a victim's subtree (getAndTryToKillPids) hands the number it signalled up on every exit that
+    # is reachable after a signalling call (its own pids, a child's walk) - a `return 0` / error there makes tryToKillCgroup report "no
+    # progress" for a victim whose processes were signalled, and the invocation goes on to the next-best cgroup
+    gk_ = ctx.fn1("Oomd::BaseKillPlugin::getAndTryToKillPids")
+    sig_ = gk_.calls("tryToKillPids", "getAndTryToKillPids", "BaseKillPlugin::tryToKillPids", "BaseKillPlugin::getAndTryToKillPids")
+    acc_ = None
+    for i_ in sig_:
+        par_ = gk_.parent.get(i_)
+        while par_ is not None and gk_.nodes[par_]["k"] in ("cast", "paren"):
+            par_ = gk_.parent.get(par_)
+        if par_ is not None and gk_.nodes[par_]["k"] == "bin" and gk_.nodes[par_].get("op") in ("+=", "="):
+            acc_ = gk_.text(gk_.nodes[par_]["l"])
+    ctx.counters["subtree_walk_signalling_calls"] = len(sig_)
+    ctx.floor("subtree_walk_signalling_calls", 2, "signalling calls in getAndTryToKillPids (own pids, children)")
+    if acc_ is None:
+        ctx.broken("signalled-victim-is-reported:getAndTryToKillPids", "anchor", gk_.loc(), "the results of the signalling calls are not accumulated into a local")
+    else:
+        fgk = Flow(P, gk_, events={i: [("set", "may-have-signalled")] for i in sig_ if gk_.pos_of(i) is not None}, cg=ctx.cg)
+        n_g = 0
+        for r in returns(gk_):
+            if not fgk.may(r, "may-have-signalled"):
+                continue
+            n_g += 1
+            t = ret_text(gk_, r)
+            ctx.check(t == acc_, "signalled-victim-is-reported:getAndTryToKillPids@%d" % gk_.nodes[r].get("line", 0), "return_table (after a kill sink)", gk_.loc(r),
+                      "once processes may have been signalled the walk returns the number signalled",
+                      "after processes of the victim's subtree may have been signalled, getAndTryToKillPids returns '%s' instead of the accumulated count %s: "
+                      "tryToKillCgroup sees no progress, reports nothing killed, and the invocation signals the next-best cgroup as well" % (t[:60], acc_),
+                      witness_path(gk_, fgk, r))
+        ctx.counters["subtree_walk_returns_after_sink"] = n_g
+        ctx.floor("subtree_walk_returns_after_sink", 1, "returns of getAndTryToKillPids reachable after a signalling call")
     tlk = ctx.fn1("Oomd::BaseKillPlugin::tryToLogAndKillCgroup")
     # ------------------------------------------------------------ R13 first success ends the invocation
     for f in (rts, rfp):
